@@ -57,6 +57,10 @@ class AnsiSetting:
             setting = str(setting)
         elif not isinstance(setting, str):
             raise TypeError('Unsupported type for setting: {}'.format(type(setting)))
+        elif type(setting) is not str:
+            # The setting is kept as a plain str: take the text of a str subclass such as AnsiStr (which has a
+            # base_str), not the object itself, whose characters are formatted strings again
+            setting = getattr(setting, 'base_str', None) or str.__str__(setting)
 
         if not setting:
             raise ValueError('Setting may not be None or empty string')
